@@ -77,6 +77,35 @@ type Case struct {
 	Again   string           `json:"remarshal,omitempty"`
 	Panic   string           `json:"panic,omitempty"`
 	Input   string           `json:"input,omitempty"`
+	Hist    *History         `json:"history,omitempty"`
+}
+
+// History: several masks, a sequence of Marshal / MarshalJSON calls whose results are kept,
+// and what the kept bytes are (and read back as) after all later operations.
+type HMask struct {
+	Black bool     `json:"black"`
+	Paths []string `json:"paths"`
+}
+type HText struct {
+	Step     int    `json:"step"`
+	Mask     int    `json:"mask"`
+	Op       string `json:"op"`
+	AtReturn string `json:"at_return"`
+	AtEnd    string `json:"at_end"`
+}
+type HRead struct {
+	Step        int   `json:"of_step"`
+	Mask        int   `json:"mask"`
+	OkRetained  bool  `json:"ok_retained"`
+	OkCopy      bool  `json:"ok_copy"`
+	ObsRetained []Obs `json:"obs_retained"`
+	ObsCopy     []Obs `json:"obs_copy"`
+}
+type History struct {
+	Masks []HMask  `json:"masks"`
+	Ops   []string `json:"ops"`
+	Texts []HText  `json:"texts"`
+	Reads []HRead  `json:"reads"`
 }
 
 // ---------------------------------------------------------------- driving the library
@@ -269,6 +298,9 @@ type stats struct {
 	TotalityPaths      int            `json:"totality_path_inputs"`
 	TotalityJSON       int            `json:"totality_json_inputs"`
 	TotalityAccepted   int            `json:"totality_inputs_accepted"`
+	Histories          int            `json:"histories"`
+	HistoryOps         int            `json:"history_operations"`
+	HistoryRetained    int            `json:"history_retained_results_rechecked"`
 	Panics             int            `json:"impl_panics"`
 	Samples            []interface{}  `json:"samples"`
 }
@@ -795,6 +827,146 @@ func (p *producer) extendSubset(g *maskkit.Gen, gram []maskkit.Path) (maskkit.Pa
 	return nil, nil, false
 }
 
+// groupSites lists field-only prefixes (depth <= 3) that end at a list / set / int or string
+// keyed map of a struct with at least two selectable fields.
+func groupSites(g *maskkit.Gen) []maskkit.Path {
+	var out []maskkit.Path
+	var rec func(t *maskkit.Ty, pre maskkit.Path, depth int)
+	rec = func(t *maskkit.Ty, pre maskkit.Path, depth int) {
+		if t == nil || t.Kind != "struct" || depth > 3 {
+			return
+		}
+		seen := map[int32]bool{}
+		seenN := map[string]bool{}
+		for _, f := range g.D.Structs[t.Name] {
+			if seen[f.ID] || seenN[f.Name] {
+				continue
+			}
+			seen[f.ID], seenN[f.Name] = true, true
+			np := append(append(maskkit.Path(nil), pre...), maskkit.PSeg{Kind: "name", Name: f.Name})
+			var el *maskkit.Ty
+			switch f.Ty.Kind {
+			case "list", "set":
+				el = f.Ty.Elem
+			case "map":
+				if ft := g.D.Ft(f.Ty); ft == "IntMap" || ft == "StrMap" {
+					el = f.Ty.Val
+				}
+			case "struct":
+				rec(f.Ty, np, depth+1)
+			}
+			if el != nil && el.Kind == "struct" {
+				n := 0
+				for _, ef := range g.D.Structs[el.Name] {
+					if g.D.Ft(ef.Ty) != "Invalid" {
+						n++
+					}
+				}
+				if n >= 2 {
+					out = append(out, np)
+				}
+			}
+		}
+	}
+	rec(g.D.Root, nil, 0)
+	return out
+}
+
+// groupExtensionList: a key group below a site, then one or two paths that extend a strict
+// subset of the group with other fields (all inside the domain).
+func (p *producer) groupExtensionList(g *maskkit.Gen, sites []maskkit.Path) ([]maskkit.Path, []maskkit.Path, bool) {
+	r := p.r
+	site := sites[r.Intn(len(sites))]
+	ct := g.TypeAt(site)
+	if ct == nil {
+		return nil, nil, false
+	}
+	kind := "idx"
+	var el *maskkit.Ty
+	switch ct.Kind {
+	case "list", "set":
+		el = ct.Elem
+	case "map":
+		el = ct.Val
+		kind = "keyi"
+		if g.D.Ft(ct) == "StrMap" {
+			kind = "keys"
+		}
+	}
+	if el == nil || el.Kind != "struct" {
+		return nil, nil, false
+	}
+	var fields []maskkit.Field
+	seen := map[int32]bool{}
+	seenN := map[string]bool{}
+	for _, f := range g.D.Structs[el.Name] {
+		if !seen[f.ID] && !seenN[f.Name] && g.D.Ft(f.Ty) != "Invalid" {
+			fields = append(fields, f)
+		}
+		seen[f.ID], seenN[f.Name] = true, true
+	}
+	if len(fields) < 2 {
+		return nil, nil, false
+	}
+	fperm := r.Intn(len(fields))
+	fieldSeg := func(f maskkit.Field) maskkit.PSeg {
+		if f.ID >= 0 && r.Chance(1, 2) {
+			return maskkit.PSeg{Kind: "id", ID: int64(f.ID)}
+		}
+		return maskkit.PSeg{Kind: "name", Name: f.Name}
+	}
+	n := r.Range(2, 3)
+	group := maskkit.PSeg{Kind: kind}
+	ip := r.Intn(5)
+	for j := 0; j < n; j++ {
+		if kind == "keys" {
+			group.Strs = append(group.Strs, []string{"a", "b", "k1", "x y", "zz"}[(ip+j)%5])
+		} else {
+			group.Ints = append(group.Ints, []int64{0, 1, 2, 7, 64}[(ip+j)%5])
+		}
+	}
+	pick := func(from, to int) maskkit.PSeg {
+		sg := maskkit.PSeg{Kind: kind}
+		for j := from; j < to; j++ {
+			if kind == "keys" {
+				sg.Strs = append(sg.Strs, group.Strs[j])
+			} else {
+				sg.Ints = append(sg.Ints, group.Ints[j])
+			}
+		}
+		return sg
+	}
+	mk := func(keys maskkit.PSeg, f maskkit.Field, deep bool) maskkit.Path {
+		pre := append(append(maskkit.Path(nil), site...), keys, fieldSeg(f))
+		if deep {
+			var tail []maskkit.Path
+			g.Select(f.Ty, 1, pre, &tail)
+			if len(tail) > 0 {
+				return tail[0]
+			}
+		}
+		return pre
+	}
+	fa := fields[fperm%len(fields)]
+	fb := fields[(fperm+1)%len(fields)]
+	k := r.Range(1, n-1)
+	gram := []maskkit.Path{mk(group, fa, r.Chance(1, 3))}
+	ext := mk(pick(0, k), fb, r.Chance(1, 3))
+	gram = append(gram, ext)
+	other := append(maskkit.Path(nil), ext...)
+	other[len(site)] = pick(k, n)
+	only := []maskkit.Path{other}
+	if len(fields) >= 3 && r.Chance(1, 2) {
+		fc := fields[(fperm+2)%len(fields)]
+		ext2 := mk(pick(n-1, n), fc, false)
+		gram = append(gram, ext2)
+		o2 := append(maskkit.Path(nil), ext2...)
+		o2[len(site)] = pick(0, n-1)
+		only = append(only, o2)
+	}
+	return gram, only, true
+}
+
 // mustProbes: the positions of paths that were not given to the library, and just below them
 func (p *producer) mustProbes(g *maskkit.Gen, only []maskkit.Path) ([][]maskkit.QKey, []string) {
 	var qs [][]maskkit.QKey
@@ -997,6 +1169,114 @@ func (p *producer) runTree(t *JT) {
 	p.fail(p.w.Add(term, c))
 }
 
+// runHistory: masks fm[0..], a random sequence of MarshalJSON(i) / Marshal(i) / Unmarshal /
+// query operations; every returned []byte is KEPT (not copied) next to a copy made when it
+// was returned; at the end the kept bytes are compared with the copies and both are read
+// back with UnmarshalJSON and queried.
+func (p *producer) runHistory(d *maskkit.Desc, specs []HMask, probes [][]maskkit.QKey, nops int) {
+	r := p.r
+	h := &History{Masks: specs}
+	c := Case{Kind: "history", Desc: d.Label, IDL: d.IDL, Probes: probes, Hist: h}
+	current.Store(fmt.Sprintf("history desc=%s masks=%v", d.Label, specs))
+	atomic.AddInt64(&progress, 1)
+	type kept struct {
+		step, mask int
+		op         string
+		b          []byte
+		cp         string
+	}
+	var ks []kept
+	built := true
+	pn := guard(func() {
+		var fms []*fieldmask.FieldMask
+		for _, sp := range specs {
+			fm, err := fieldmask.Options{BlackListMode: sp.Black}.NewFieldMask(d.Real, sp.Paths...)
+			if err != nil {
+				built = false
+				return
+			}
+			fms = append(fms, fm)
+		}
+		for step := 0; step < nops; step++ {
+			i := r.Intn(len(fms))
+			switch r.Intn(6) {
+			case 0, 1, 2:
+				b, err := fms[i].MarshalJSON()
+				if err != nil {
+					panic("MarshalJSON error: " + err.Error())
+				}
+				ks = append(ks, kept{step, i, "MarshalJSON", b, string(b)})
+				h.Ops = append(h.Ops, fmt.Sprintf("MarshalJSON(%d)", i))
+			case 3, 4:
+				b, err := fieldmask.Marshal(fms[i])
+				if err != nil {
+					panic("Marshal error: " + err.Error())
+				}
+				ks = append(ks, kept{step, i, "Marshal", b, string(b)})
+				h.Ops = append(h.Ops, fmt.Sprintf("Marshal(%d)", i))
+			default:
+				// read an earlier result back while the history goes on, and query the mask
+				if len(ks) > 0 {
+					k := ks[r.Intn(len(ks))]
+					if m, err := fieldmask.Unmarshal(k.b); err == nil {
+						observeAll(m, probes)
+					}
+					h.Ops = append(h.Ops, fmt.Sprintf("Unmarshal(result of step %d)", k.step))
+				} else {
+					observeAll(fms[i], probes)
+					h.Ops = append(h.Ops, fmt.Sprintf("query(%d)", i))
+				}
+			}
+		}
+		for _, k := range ks {
+			h.Texts = append(h.Texts, HText{Step: k.step, Mask: k.mask, Op: k.op, AtReturn: k.cp, AtEnd: string(k.b)})
+		}
+		// read back a few kept results: from the kept bytes and from the copy
+		for n, k := range ks {
+			if n >= 3 {
+				break
+			}
+			rd := HRead{Step: k.step, Mask: k.mask, ObsRetained: []Obs{}, ObsCopy: []Obs{}}
+			m1 := &fieldmask.FieldMask{}
+			if err := m1.UnmarshalJSON(k.b); err == nil {
+				rd.OkRetained = true
+				rd.ObsRetained = observeAll(m1, probes)
+			}
+			m2 := &fieldmask.FieldMask{}
+			if err := m2.UnmarshalJSON([]byte(k.cp)); err == nil {
+				rd.OkCopy = true
+				rd.ObsCopy = observeAll(m2, probes)
+			}
+			h.Reads = append(h.Reads, rd)
+		}
+	})
+	if pn != "" {
+		p.addPanic("history", current.Load().(string), pn)
+		return
+	}
+	if !built {
+		return
+	}
+	p.st.Evaluations++
+	p.st.Kinds["history"]++
+	p.st.Histories++
+	p.st.HistoryOps += len(h.Ops)
+	p.st.HistoryRetained += len(h.Texts)
+	var ms, ts, rs []string
+	for _, sp := range specs {
+		ms = append(ms, fmt.Sprintf("(%s, %s)", coqfmt.Bool(sp.Black), coqStrs(sp.Paths)))
+	}
+	for _, t := range h.Texts {
+		ts = append(ts, fmt.Sprintf("(%s, %s, %s)", coqfmt.Nat(t.Mask), coqfmt.Bytes(t.AtReturn), coqfmt.Bytes(t.AtEnd)))
+	}
+	for _, rd := range h.Reads {
+		rs = append(rs, fmt.Sprintf("(%s, %s, %s, %s, %s)", coqfmt.Nat(rd.Mask), coqfmt.Bool(rd.OkRetained), coqfmt.Bool(rd.OkCopy),
+			coqObsList(rd.ObsRetained), coqObsList(rd.ObsCopy)))
+	}
+	term := fmt.Sprintf("CHist env_%s root_%s %s %s %s %s", d.Label, d.Label, coqfmt.List(ms), coqProbes(probes), coqfmt.List(ts), coqfmt.List(rs))
+	p.fail(p.w.Add(term, c))
+}
+
 // totality: arbitrary inputs, every call under recover; only panics are recorded as cases
 func (p *producer) totalPath(d *maskkit.Desc, paths []string, q string, black bool) {
 	in := fmt.Sprintf("desc=%s black=%v paths=%q query=%q", d.Label, black, paths, q)
@@ -1147,7 +1427,7 @@ func main() {
 
 	finish := func() {
 		p.fail(w.Close())
-		st.Rule = "a path list is non-trivial when it has >= 2 paths; distinct = distinct (descriptor, mode, path strings); json trees, mutated lists and totality inputs are counted in their own fields"
+		st.Rule = "a path list is non-trivial when it has >= 2 paths; distinct = distinct (descriptor, mode, path strings); json trees, mutated lists, histories and totality inputs are counted in their own fields"
 		p.fail(casefile.WriteMeta(*out, map[string]interface{}{"stats": st, "shards": w.Shards, "total": w.Total()}))
 	}
 
@@ -1335,6 +1615,51 @@ func main() {
 			}
 		}
 		_ = di
+	}
+
+	// ---- key groups followed by extensions of a strict subset of their members
+	ngroup := 4
+	if thorough {
+		ngroup = 16
+	}
+	for _, d := range descs {
+		g := &maskkit.Gen{R: r, D: d}
+		sites := groupSites(g)
+		if len(sites) == 0 {
+			continue
+		}
+		for i := 0; i < ngroup; i++ {
+			gram, only, ok := p.groupExtensionList(g, sites)
+			if !ok {
+				continue
+			}
+			probes, gps := p.probesFor(g, gram, 10)
+			mq, mg := p.mustProbes(g, only)
+			p.runPaths("group-extension", d, r.Chance(2, 5), renderAll(gram), gram, true, append(mq, probes...), append(mg, gps...), p.variantsOf(gram))
+		}
+	}
+
+	// ---- histories: results of Marshal / MarshalJSON kept across later operations
+	nhist := 60
+	if thorough {
+		nhist = 1500
+	}
+	for i := 0; i < nhist; i++ {
+		d := descs[r.Intn(len(descs))]
+		g := &maskkit.Gen{R: r, D: d}
+		var specs []HMask
+		var all []maskkit.Path
+		for m, nm := 0, r.Range(2, 4); m < nm; m++ {
+			var gram []maskkit.Path
+			g.Select(d.Root, r.Range(1, 3), nil, &gram)
+			if len(gram) > 5 {
+				gram = gram[:5]
+			}
+			all = append(all, gram...)
+			specs = append(specs, HMask{Black: r.Chance(1, 3), Paths: renderAll(gram)})
+		}
+		probes, _ := p.probesFor(g, all, 10)
+		p.runHistory(d, specs, probes, r.Range(5, 12))
 	}
 
 	// ---- JSON trees into Unmarshal
